@@ -151,53 +151,58 @@ static string strm(const V &v, int adj, int base, int fill, int w, unsigned long
   return r;
 }
 
-// ---- printers called from several threads at once (op "thr") ----------------------------------
-struct ThrArg { unsigned id; unsigned n; unsigned long long seed; unsigned long mis; volatile int *go; };
+// ---- printers/parsers called from several threads at once (ops "thr", "thrf") ------------------
+// The work is split into phases, one per printer/parser pair; all threads pass a barrier before
+// each phase, so that the FIRST use of every conversion happens on all threads at the same time.
+// Each thread works on its own objects; a correct (pure, re-entrant) tree can never mismatch.
+enum { THR_PHASES = 11 };
+struct ThrShared { volatile int go; volatile int arrived[THR_PHASES]; int nthreads; };
+struct ThrArg { unsigned id; unsigned n; unsigned long long seed; unsigned long mis; ThrShared *sh; };
 static unsigned long long lcg(unsigned long long *s) {
   *s = *s * 6364136223846793005ULL + 1442695040888963407ULL;
   return *s;
 }
-static void *thr_main(void *p) {
-  ThrArg *a = static_cast<ThrArg*>(p);
-  unsigned long long s = a->seed + 0x9e3779b97f4a7c15ULL * (a->id + 1);
-  while (!*a->go) {}
+static unsigned long thr_phase(int phase, unsigned long long *s) {
   unsigned long mis = 0;
-  char buf[64];
-  for (unsigned i = 0; i < a->n; i++) {
-    unsigned long long r = lcg(&s);
-    // vary the number of digits
-    unsigned long long v = r >> (lcg(&s) % 64);
-    {  // IntToString(uint64_t) -> strict StringToInt, and the text itself
+  char buf[4200];
+  unsigned long long r = lcg(s);
+  unsigned long long v = r >> (lcg(s) % 64);   // vary the number of digits
+  switch (phase) {
+    case 0: {  // IntToString(uint64_t) -> strict StringToInt, and the text itself
       string t = ola::strings::IntToString(static_cast<uint64_t>(v));
       snprintf(buf, sizeof(buf), "%llu", v);
       uint64_t back = 0;
       if (t != buf || !ola::StringToInt(t, &back, true) || back != v) mis++;
+      break;
     }
-    {  // IntToString(int64_t)
+    case 1: {  // IntToString(int64_t)
       long long sv = static_cast<long long>(v >> 1);
       if (r & 1) sv = -sv;
       string t = ola::strings::IntToString(static_cast<int64_t>(sv));
       snprintf(buf, sizeof(buf), "%lld", sv);
       int64_t back = 0;
       if (t != buf || !ola::StringToInt(t, &back, true) || back != sv) mis++;
+      break;
     }
-    {  // ToHex(uint32_t)
+    case 2: {  // ToHex(uint32_t) -> HexStringToInt
       uint32_t hv = static_cast<uint32_t>(v);
       std::ostringstream o;
       o << ola::strings::ToHex(hv, false);
       snprintf(buf, sizeof(buf), "%08x", hv);
       uint32_t back = 0;
       if (o.str() != buf || !ola::HexStringToInt(o.str(), &back) || back != hv) mis++;
+      break;
     }
-    {  // UID::ToString
+    case 3: {  // UID
       ola::rdm::UID u(static_cast<uint64_t>(r & 0xffffffffffffULL));
       string t = u.ToString();
       snprintf(buf, sizeof(buf), "%04x:%08x", u.ManufacturerId(), u.DeviceId());
       ola::rdm::UID *b = ola::rdm::UID::FromString(t);
       if (t != buf || !b || !(*b == u)) mis++;
       delete b;
+      break;
     }
-    {  // IPV4Address::ToString
+    case 4: {  // IPV4Address
       uint32_t av = static_cast<uint32_t>(r >> 16);
       ola::network::IPV4Address ip(av);
       string t = ip.ToString();
@@ -205,29 +210,133 @@ static void *thr_main(void *p) {
       snprintf(buf, sizeof(buf), "%u.%u.%u.%u", q[0], q[1], q[2], q[3]);
       ola::network::IPV4Address back;
       if (t != buf || !ola::network::IPV4Address::FromString(t, &back) || !(back == ip)) mis++;
+      break;
     }
+    case 5: case 6: {  // DmxBuffer::ToString / operator<<  -> SetFromString
+      uint8_t d[24];
+      unsigned n = 1 + (r >> 8) % 24;
+      string ref;
+      for (unsigned i = 0; i < n; i++) {
+        d[i] = static_cast<uint8_t>(lcg(s) >> 33);
+        char one[8];
+        snprintf(one, sizeof(one), "%s%u", i ? "," : "", d[i]);
+        ref += one;
+      }
+      ola::DmxBuffer b(d, n);
+      string t;
+      if (phase == 5) { t = b.ToString(); } else { std::ostringstream o; o << b; t = o.str(); }
+      ola::DmxBuffer back;
+      if (t != ref || !back.SetFromString(t) || !(back == b)) mis++;
+      break;
+    }
+    case 7: {  // MACAddress
+      uint8_t m[6];
+      for (unsigned i = 0; i < 6; i++) m[i] = static_cast<uint8_t>(r >> (8 * i));
+      ola::network::MACAddress mac(m);
+      string t = mac.ToString();
+      snprintf(buf, sizeof(buf), "%02x:%02x:%02x:%02x:%02x:%02x", m[0], m[1], m[2], m[3], m[4], m[5]);
+      ola::network::MACAddress back;
+      if (t != buf || !ola::network::MACAddress::FromString(t, &back) || !(back == mac)) mis++;
+      break;
+    }
+    case 8: {  // IPV6Address
+      uint8_t a6[16];
+      unsigned long long r2 = lcg(s);
+      for (unsigned i = 0; i < 8; i++) { a6[i] = (r >> (8 * i)) & ((r2 >> i) & 1 ? 0xff : 0); a6[8 + i] = r2 >> (8 * i); }
+      ola::network::IPV6Address ip(a6);
+      string t = ip.ToString();
+      char ref[INET6_ADDRSTRLEN];
+      ola::network::IPV6Address back;
+      if (!inet_ntop(AF_INET6, a6, ref, sizeof(ref)) || t != ref ||
+          !ola::network::IPV6Address::FromString(t, &back) || !(back == ip)) mis++;
+      break;
+    }
+    case 9: {  // CID
+      uint8_t c[16];
+      unsigned long long r2 = lcg(s);
+      memcpy(c, &r, 8); memcpy(c + 8, &r2, 8);
+      ola::acn::CID cid = ola::acn::CID::FromData(c);
+      string t = cid.ToString();
+      snprintf(buf, sizeof(buf), "%02x%02x%02x%02x-%02x%02x-%02x%02x-%02x%02x-%02x%02x%02x%02x%02x%02x",
+               c[0], c[1], c[2], c[3], c[4], c[5], c[6], c[7], c[8], c[9], c[10], c[11], c[12], c[13], c[14], c[15]);
+      ola::acn::CID back = ola::acn::CID::FromString(t);
+      if (t != buf || !(back == cid)) mis++;
+      break;
+    }
+    default: {  // IPV4SocketAddress and booleans
+      uint32_t av = static_cast<uint32_t>(r >> 20);
+      uint16_t port = static_cast<uint16_t>(r);
+      ola::network::IPV4SocketAddress sa((ola::network::IPV4Address(av)), port);
+      string t = sa.ToString();
+      const uint8_t *q = reinterpret_cast<const uint8_t*>(&av);
+      snprintf(buf, sizeof(buf), "%u.%u.%u.%u:%u", q[0], q[1], q[2], q[3], port);
+      ola::network::IPV4SocketAddress back;
+      bool bv = false;
+      if (t != buf || !ola::network::IPV4SocketAddress::FromString(t, &back) || !(back == sa)) mis++;
+      if (!ola::StringToBoolTolerant((r & 4) ? "EnAbLeD" : "off", &bv) || bv != ((r & 4) != 0)) mis++;
+      break;
+    }
+  }
+  return mis;
+}
+static void *thr_main(void *p) {
+  ThrArg *a = static_cast<ThrArg*>(p);
+  ThrShared *sh = a->sh;
+  unsigned long long s = a->seed + 0x9e3779b97f4a7c15ULL * (a->id + 1);
+  while (!sh->go) {}
+  unsigned long mis = 0;
+  for (int phase = 0; phase < THR_PHASES; phase++) {
+    __sync_fetch_and_add(&sh->arrived[phase], 1);
+    while (sh->arrived[phase] < sh->nthreads) {}
+    for (unsigned i = 0; i < a->n; i++) mis += thr_phase(phase, &s);
   }
   a->mis = mis;
   return NULL;
 }
-static string run_threads(unsigned nthreads, unsigned n, unsigned long long seed) {
+static unsigned long run_threads_raw(unsigned nthreads, unsigned n, unsigned long long seed) {
   if (nthreads > 16) nthreads = 16;
-  volatile int go = 0;
+  static ThrShared sh;
+  memset(&sh, 0, sizeof(sh));
   ThrArg args[16];
   pthread_t th[16];
   unsigned started = 0;
   for (unsigned i = 0; i < nthreads; i++) {
-    args[i].id = i; args[i].n = n; args[i].seed = seed; args[i].mis = 0; args[i].go = &go;
+    args[i].id = i; args[i].n = n; args[i].seed = seed; args[i].mis = 0; args[i].sh = &sh;
     if (pthread_create(&th[i], NULL, thr_main, &args[i]) != 0) break;
     started++;
   }
-  go = 1;
+  sh.nthreads = static_cast<int>(started);
+  __sync_synchronize();
+  sh.go = 1;
   unsigned long mis = 0;
   for (unsigned i = 0; i < started; i++) { pthread_join(th[i], NULL); mis += args[i].mis; }
-  // a thread that could not be started is environment trouble, not a property failure: its
-  // conversions are run here so the count is still complete
-  for (unsigned i = started; i < nthreads; i++) { thr_main(&args[i]); mis += args[i].mis; }
-  return "mis=" + udec(mis) + ";cnt=" + udec(5ULL * nthreads * n);
+  return mis;
+}
+static string run_threads(unsigned nthreads, unsigned n, unsigned long long seed) {
+  return "mis=" + udec(run_threads_raw(nthreads, n, seed)) + ";cnt=" + udec(1ULL * THR_PHASES * nthreads * n);
+}
+// The same phases in FRESH processes (this binary re-executed with --thr): nothing has been
+// converted in them before the threads start, so first-use races (lazily filled tables, static
+// locals) are reachable.  A child that dies counts as failed.
+static string run_threads_fresh(unsigned nthreads, unsigned n, unsigned long long seed, unsigned rounds) {
+  char exe[4096];
+  ssize_t len = readlink("/proc/self/exe", exe, sizeof(exe) - 1);
+  if (len <= 0) return "mis=0;dead=0;cnt=0;env=no-proc-self-exe";
+  exe[len] = 0;
+  unsigned long mis = 0, dead = 0;
+  for (unsigned k = 0; k < rounds; k++) {
+    string cmd = string("'") + exe + "' --thr " + udec(nthreads) + " " + udec(n) + " " + udec(seed + k) + " 2>/dev/null";
+    FILE *f = popen(cmd.c_str(), "r");
+    unsigned long m = 0;
+    bool got = false;
+    if (f) {
+      char line[128];
+      while (fgets(line, sizeof(line), f)) { if (sscanf(line, "THR %lu", &m) == 1) got = true; }
+      pclose(f);
+    }
+    if (got) mis += m; else dead++;
+  }
+  return "mis=" + udec(mis) + ";dead=" + udec(dead) + ";cnt=" + udec(1ULL * THR_PHASES * nthreads * n * rounds);
 }
 
 static string handle(const string &p) {
@@ -547,6 +656,7 @@ static string handle(const string &p) {
     return r;
   }
   if (op == "thr") return run_threads(vh::num(a[1]), vh::num(a[2]), vh::num(a[3]));
+  if (op == "thrf") return run_threads_fresh(vh::num(a[1]), vh::num(a[2]), vh::num(a[3]), vh::num(a[4]));
   if (op == "split") {
     vector<string> tokens;
     ola::StringSplit(text_of(a[2]), &tokens, text_of(a[1]));
@@ -575,5 +685,13 @@ static string guarded(const string &p) {
 
 int main(int argc, char **argv) {
   ola::InitLogging(ola::OLA_LOG_NONE, ola::OLA_LOG_NULL);
+  if (argc == 5 && string(argv[1]) == "--thr") {   // fresh-process round of op "thrf": threads first
+    signal(SIGALRM, vh::on_alarm);
+    alarm(60);
+    unsigned long m = 0;
+    try { m = run_threads_raw(vh::num(argv[2]), vh::num(argv[3]), vh::num(argv[4])); } catch (...) { m = 1000000; }
+    printf("THR %lu\n", m);
+    return 0;
+  }
   return vh::run(argc, argv, guarded);
 }
